@@ -918,7 +918,7 @@ def _dag_size(t, limit: int) -> int:
 def implied(ctx: Ctx, cond, timeout_ms: int = 10000) -> bool:
     """True iff the solver proves `cond` from the current domain (used to pick branches soundly)."""
     s = z3.Solver()
-    s.set("timeout", timeout_ms)
+    s.set("timeout", min(timeout_ms, getattr(ctx, "implied_timeout_ms", timeout_ms)))
     for a in ctx.constraints:
         s.add(a)
     for a in atoms_nonzero(ctx):
